@@ -12,11 +12,12 @@
    Not theorems (decided by the tie and the harness's oracle only):
    - C33_replay: executing the operation with resolvers serving the generated data reproduces it without errors
      (no execution model was available; the harness executes with apollo-compiler's resolver API);
-   - that a run never ends in RsPanic / RsEmptyChoose / RsInvalidDoc / RsFuel for valid inputs and enough fuel:
-     C33_shape speaks about every run that returns a response (RsOk), for any fuel. *)
+   - that the model's fuel (60 in the tie) suffices for acyclic fragments: C33_shape speaks about every run that
+     returns a response (RsOk), for any fuel; C33_no_panic shows that the only other outcomes on well-typed input
+     are `exhausted` and out-of-fuel (never a panic, EmptyChoose or a missing definition). *)
 From Coq Require Import ZArith.
 From ApolloVerif Require Import Base.Chars Ast.Ast Schema.Model Smith.Response Smith.ResponseSpec
-  Smith.ResponseProofs Smith.ResponseExamples.
+  Smith.ResponseProofs Smith.ResponseExamples Smith.ResponseSafe.
 
 Theorem C33_shape : forall fuel cfg s d opname o n sels root stream j rest,
   rs_known_covariant s d = false ->
@@ -59,6 +60,19 @@ Check C33_shape_refuted : exists fuel cfg s d opname o n sels root stream j rest
   rs_build_data fuel cfg s d opname stream = RsOk j rest /\
   ~ RsObjOk s d root sels j.
 Print Assumptions C33_shape_refuted.
+
+(* on well-typed input (every field defined on the type it is selected under, leaf fields of enum/scalar type,
+   fields with sub-selections of composite type, unions and enums non-empty, min <= max list size, non-zero
+   ratio denominator) no run panics, fails with EmptyChoose or misses a definition: for every stream the outcome
+   is a response, `exhausted`, or the model's fuel bound *)
+Theorem C33_no_panic : forall fuel cfg s d opname stream,
+  rs_cfg_ok cfg = true -> rs_typed_operation s d opname = true ->
+  RsSafe (rs_build_data fuel cfg s d opname stream).
+Proof. exact rs_no_panic. Qed.
+Check C33_no_panic : forall fuel cfg s d opname stream,
+  rs_cfg_ok cfg = true -> rs_typed_operation s d opname = true ->
+  RsSafe (rs_build_data fuel cfg s d opname stream).
+Print Assumptions C33_no_panic.
 
 (* operation not found: data is null and no choice is consumed *)
 Theorem C33_no_operation : forall fuel cfg s d opname stream,
@@ -119,3 +133,8 @@ Proof.
   exact (C33_shape 10 rx_cfg _ rx_doc None OpQuery None [rx_sel_i] rx_Query [1; 0; 0] _ []
            rx_good_class (rx_builtins _) (rx_has_impl _) eq_refl eq_refl I (rx_valid _) rx_good_run).
 Qed.
+
+Example C33_no_panic_nonvacuous :
+  rs_cfg_ok rx_cfg = true /\ rs_typed_operation (rx_schema (TNamed rs_n_int)) rx_doc None = true /\
+  rs_typed_operation rx_bad rx_doc None = true.
+Proof. repeat split; vm_compute; reflexivity. Qed.
